@@ -8,6 +8,7 @@ package main
 
 import (
 	"fmt"
+	"github.com/jech/storrent/config"
 	"sync"
 
 	"verifharness/torsim"
@@ -130,6 +131,9 @@ func runCase(seed uint64, caseNo int, rate int) caseOut {
 		return caseOut{ru.Lines, ru.Viol, ru.Tags}
 	case x < 30:
 		torsim.GenStallCase(r, ru, rate)
+		return caseOut{ru.Lines, ru.Viol, ru.Tags}
+	case x < 32:
+		torsim.GenIdleCase(r, ru, rate)
 		return caseOut{ru.Lines, ru.Viol, ru.Tags}
 	}
 	ps, files, single := genLayout(r)
@@ -485,6 +489,7 @@ func runFuseCase(r *vhlib.Rand, ru *torsim.Runner, rate int) caseOut {
 }
 
 func main() {
+	config.SetIdleRate(torsim.IdleRateForCases)
 	c := vhlib.Init("c02")
 	c.Rep.Rule = "case = one generated torrent layout + one op sequence; nontrivial = the sequence made a Read block, wake, hit EOF or cross an eviction"
 	if c.Replay != "" {
